@@ -1,6 +1,6 @@
 (* Interp.v — ties the knot: Interp::eval_value, Interp::expr, command dispatch, Interp::new. *)
 From Molt Require Import Model.Base Model.Tokenizer Model.ListSyn Model.Float Model.Value
-  Model.State Model.Script Model.Parser Model.Eval Model.Expr Model.Commands.
+  Model.State Model.Script Model.Parser Model.Eval Model.Expr Model.Commands Model.Harness.
 From Molt Require Gen.SrcFacts.
 Local Open Scope N_scope.
 
@@ -108,7 +108,8 @@ Definition run_native (rec : recfns) (n : native) (st : interp) (argv : list val
   | NRecorder => cmd_recorder st argv
   | NIdent => cmd_ident st argv
   | NDummy tag => ret st (VInt (Z.of_N tag))
-  | NTime | NSource | NExit | NParse | NPdump | NPclear | NTest =>
+  | NTest => cmd_test rec st argv
+  | NTime | NSource | NExit | NParse | NPdump | NPclear =>
       (st, Panic (lit "command not modelled"))
   end.
 
